@@ -848,4 +848,13 @@ def R7_configured_grid(ctx):
         ctx.check(pred(t), "new-argument:%s" % role, "the %s passed to InterpolationSpeedGradeModel::new is %s" % (role, short(t)[:160]), c.where(), detail=role)
 
 
-RULES = [R1_clamp, R2_grid, R2b_linspace, R3_weights, R3b_nd, R4_rejection, R5_index_search, R6_units, R7_configured_grid]
+def RA_energy_constructors(ctx):
+    """the grid is filled with energies the underlying record forms through Energy::create / create_energy for one unit distance in
+    the rate's own distance unit: the unit tables and constructors are part of "faithful to the underlying model" (shared with
+    C09.R3/R4)"""
+    from props.C09 import R3_associated, R4_constructors
+    R3_associated(ctx)
+    R4_constructors(ctx)
+
+
+RULES = [R1_clamp, R2_grid, R2b_linspace, R3_weights, R3b_nd, R4_rejection, R5_index_search, R6_units, R7_configured_grid, RA_energy_constructors]
